@@ -7,7 +7,7 @@ import solver_common as S
 CLAIMED = True
 
 PROP = dict(
-    proof_modules=["VrpProofs.C01", "VrpProofs.C06", "VrpProofs.C06Cap"],
+    proof_modules=["VrpProofs.C01", "VrpProofs.C06", "VrpProofs.C06Cap", "VrpProofs.C06CapVec"],
     model_modules=["VrpModel.Route", "VrpModel.C06", "VrpModel.Prag", "VrpModel.Spec"],
     drv="drv_c01", bin="c01", share_run=True,
     compare=S.make_compare("feasible"), nontrivial=S.nontrivial, extra_evidence=S.extra, rule=S.RULE,
